@@ -1,7 +1,40 @@
 import Driver.CpuUtil
+import GbVerif.Model.Cpu
 namespace Driver
+open GbVerif
 
-/-- C06: control flow, length and timing, one instruction per line -/
-def checkC06 (l : Line) : Verdict := checkCpu l
+/-- `c06.block`: a straight-line block of one-byte, one-cycle instructions ending in HALT / EI / DI, run through
+`interpreter::run_code_block`: it ends at the terminator and nowhere else (spec: PC = start + length, one machine cycle
+per instruction, the terminator's status), and the model of the block loop agrees -/
+def checkBlock (l : Line) : Verdict := Id.run do
+  let at_ := l.inN "at"
+  let code := parseBytes (l.inS "code")
+  let n := code.size
+  if n == 0 then return .bad "empty block"
+  let term := code[n - 1]!
+  let stExp := if term == 0x76 then 2 else if term == 0xfb then 4 else 3
+  -- spec, from the implementation's outputs
+  if l.outN "ip" != at_ + n then
+    return .specDiff s!"block of {n} instructions at {at_} ended with PC={l.outN "ip"}, its terminator is at {at_ + n - 1}"
+  if l.outN "cy" != n then return .specDiff s!"block of {n} one-cycle instructions charged {l.outN "cy"} machine cycles"
+  if l.outN "st" != stExp then return .specDiff s!"terminator {term} returned status {l.outN "st"}, expected {stExp}"
+  -- model
+  let patch : List (Nat × Nat) := if at_ < 0x8000 then (List.range n).map fun k => (at_ + k, code[k]!) else []
+  let rom := fun i => if i ≥ at_ && i < at_ + n && at_ < 0x8000 then code[i - at_]! else romByte i
+  let _ := patch
+  let mut b := Bus.create .mbc1 4 32768 rom
+  if at_ ≥ 0x8000 then
+    for k in [0:n] do
+      match Bus.write b (at_ + k) code[k]! with | .ok b' => b := b' | .error _ => return .bad "setup"
+  let r : Interp.Regs := { af := 0x1200, bc := 0x3456, de := 0x789a, hl := 0xc800, sp := 0xdff0, ip := at_ }
+  match Cpu.runCodeBlock r b 65536 with
+  | .error _ => return .modelDiff "model panics"
+  | .ok (r', _, st) =>
+    if r'.ip != l.outN "ip" || r'.cycles != l.outN "cy" || st != l.outN "st" then
+      return .modelDiff s!"block loop: model ip={r'.ip} cy={r'.cycles} st={st} impl ip={l.outN "ip"} cy={l.outN "cy"} st={l.outN "st"}"
+  return .ok (n > 100)
+
+/-- C06: control flow, length and timing, one instruction per line; whole blocks in `c06.block` -/
+def checkC06 (l : Line) : Verdict := if l.stream == "c06.block" then checkBlock l else checkCpu l
 
 end Driver
